@@ -249,6 +249,24 @@ func ruleLayoutDecompose(c *Ctx) {
 		return true
 	})
 	c.check(len(seen) == 16, "decompose.complete", fd, "16 coefficient bytes written", fmt.Sprintf("%d coefficient bytes written, want 16", len(seen)), "C14")
+	// the stores are unconditional: a reused buffer may hold stale bytes
+	cond := 0
+	for _, st := range fd.Body.List {
+		if _, isAssign := st.(*ast.AssignStmt); isAssign {
+			continue
+		}
+		ast.Inspect(st, func(n ast.Node) bool {
+			as, ok := n.(*ast.AssignStmt)
+			if !ok || len(as.Lhs) != 1 {
+				return true
+			}
+			if ix, ok := as.Lhs[0].(*ast.IndexExpr); ok && p.objOf(ix.X) == sigObj && sigObj != nil {
+				cond++
+			}
+			return true
+		})
+	}
+	c.check(cond == 0, "decompose.unconditional", fd, "all 16 byte stores are unconditional", fmt.Sprintf("Decompose writes %d coefficient bytes only conditionally; with a caller-supplied buffer the skipped bytes keep stale contents", cond), "C14")
 	// the source must be the coefficient of d.decompose()
 	okSrc := false
 	ast.Inspect(fd.Body, func(n ast.Node) bool {
